@@ -5,6 +5,7 @@ import (
 	"go/constant"
 	"go/token"
 	"go/types"
+	"sort"
 	"strings"
 
 	"verifchk/internal/an"
@@ -28,6 +29,7 @@ func runC17(c *an.Ctx) {
 	r17d(c)
 	r17e(c)
 	r17f(c)
+	r17h(c)
 }
 
 const exPkg = "executor/executable"
@@ -591,4 +593,58 @@ func isTimerChan(v ssa.Value) bool {
 		}
 	}
 	return false
+}
+
+// R17h: the kill escalation asks pidExists (also with a negative pid, i.e. for a process group, probing its leader)
+// whether to go on to the next signal. A probe that succeeded must be answered with "exists": any further
+// condition (the leader being a zombie, say) ends the escalation while other members of the group may still run.
+func r17h(c *an.Ctx) {
+	c.Rule("R17h", "pidExists: a successful signal-0 probe always answers true", 1)
+	fn := c.MustFn(exPkg, "pidExists")
+	if fn == nil {
+		return
+	}
+	c.Subject()
+	var probe *ssa.Call
+	an.Instrs(fn, func(in ssa.Instruction) {
+		if call, ok := in.(*ssa.Call); ok {
+			n := an.CalleeName(&call.Call)
+			if strings.HasSuffix(n, "os.Process).Signal") || strings.HasSuffix(n, "syscall.Kill") {
+				probe = call
+			}
+		}
+	})
+	if probe == nil {
+		c.Ob(exPkg+".pidExists|probe-success-means-exists", fn.Pos(), false, "no signal-0 probe (Process.Signal / syscall.Kill) found in pidExists")
+		return
+	}
+	isProbeErr := func(v ssa.Value) bool {
+		return an.DerivesFrom(v, probe) && !an.IsNilConst(v)
+	}
+	assume := func(v ssa.Value) (bool, bool) {
+		if bo, ok := v.(*ssa.BinOp); ok && (bo.Op == token.EQL || bo.Op == token.NEQ) {
+			for _, pair := range [][2]ssa.Value{{bo.X, bo.Y}, {bo.Y, bo.X}} {
+				if an.IsNilConst(pair[1]) && isProbeErr(pair[0]) {
+					return bo.Op == token.EQL, true
+				}
+			}
+		}
+		return false, false
+	}
+	fl := an.FlowAssume(probe.Block(), assume)
+	var bad []string
+	n := 0
+	for _, r := range fl.ReachedReturns() {
+		if len(r.Results) != 1 {
+			continue
+		}
+		n++
+		v := fl.Resolve(r.Results[0])
+		if k, ok := v.(*ssa.Const); !ok || k.Value == nil || k.Value.String() != "true" {
+			bad = append(bad, c.PosStr(lastPos(r.Block())))
+		}
+	}
+	sort.Strings(bad)
+	c.Ob(exPkg+".pidExists|probe-success-means-exists", fn.Pos(), len(bad) == 0 && n > 0,
+		"after a successful signal-0 probe pidExists can answer something other than the constant true (returns at %v; %d returns reachable with a nil probe error): the TERM/INT/KILL escalation, which probes only the leader of a process group, then stops although members of the group may still be alive", bad, n)
 }
